@@ -57,12 +57,19 @@ Definition machine_wfb (m : machine) : bool :=
 
 Lemma machine_wfb_spec : forall m, machine_wfb m = true -> machine_wf m.
 Proof.
-  intros m H. unfold machine_wfb in H. repeat (apply andb_prop in H; destruct H as [H ?]).
-  unfold machine_wf. split; [apply (nodupb_spec _ chip_eqb); [exact chip_eqb_eq|exact H]|].
+  intros m H. unfold machine_wfb in H.
+  apply andb_prop in H. destruct H as [H Hj]. apply andb_prop in H. destruct H as [H Hi].
+  apply andb_prop in H. destruct H as [H Hh]. apply andb_prop in H. destruct H as [H Hg].
+  apply andb_prop in H. destruct H as [H Hf]. apply andb_prop in H. destruct H as [H He].
+  apply andb_prop in H. destruct H as [H Hd]. apply andb_prop in H. destruct H as [H Hc].
+  apply andb_prop in H. destruct H as [Ha Hb].
+  unfold machine_wf. split; [apply (nodupb_spec _ chip_eqb); [exact chip_eqb_eq|exact Ha]|].
   split.
-  - intros c s Hat. pose proof (all_coresb_spec _ _ H8 c s Hat) as Hs. unfold core_wfb in Hs.
-    repeat (apply andb_prop in Hs; destruct Hs as [Hs ?]). unfold core_wf. lia.
-  - apply orb_prop in H7. repeat split; try lia. destruct H7 as [H7|H7]; [left|right]; lia.
+  - intros c s Hat. pose proof (all_coresb_spec _ _ Hb c s Hat) as Hs. unfold core_wfb in Hs.
+    apply andb_prop in Hs. destruct Hs as [Hs H4]. apply andb_prop in Hs. destruct Hs as [Hs H3].
+    apply andb_prop in Hs. destruct Hs as [H1 H2]. unfold core_wf. lia.
+  - apply orb_prop in Hc. change (2 ^ 32) with 4294967296 in *.
+    split; [destruct Hc as [Hc|Hc]; [left|right]; lia|]. repeat split; lia.
 Qed.
 
 Definition binary_okb (buffer : Z) (data : list Z) : bool :=
